@@ -284,6 +284,283 @@ def seg_encoder_stream(b):
     return bounds, ints
 
 
+# ---------------------------------------------------------------- qp.e / qp.d: the instruction parsers on raw bytes
+def _c15():
+    import importlib
+    return importlib.import_module('props.c15')       # RFC 7541 integer encoder and the spec-data Huffman table (never h3's)
+
+
+def w_int(size, flags, v):
+    return _c15().pi_encode(size, flags, v)
+
+
+def w_str(nbits, above, s, huff):
+    """string literal: `above` are the pattern bits above the H bit, nbits the length prefix"""
+    payload = _c15().huff_encode(s) if huff else bytes(s)
+    return w_int(nbits, (above << 1) | (1 if huff else 0), len(payload)) + payload
+
+
+def w_einstr(i, rng=None):
+    h = (lambda: rng.random() < 0.7) if rng else (lambda: True)
+    k = i[0]
+    if k == 'Z':
+        return w_int(5, 1, i[1])
+    if k == 'U':
+        return w_int(5, 0, i[1])
+    if k == 'IS':
+        return w_int(6, 3, i[1]) + w_str(7, 0, i[2], h())
+    if k == 'ID':
+        return w_int(6, 2, i[1]) + w_str(7, 0, i[2], h())
+    return w_str(5, 1, i[1], h()) + w_str(7, 0, i[2], h())          # IL
+
+
+def w_dinstr(i):
+    return {'A': lambda: w_int(7, 1, i[1]), 'X': lambda: w_int(6, 1, i[1]), 'N': lambda: w_int(6, 0, i[1])}[i[0]]()
+
+
+def r_int(b, pos, nbits):
+    """reference reading of a prefix integer: ('ok', value, next) | ('cut',) | ('bad',): `bad` = more than what RFC 9204
+    asks an implementation to support (62 bits) or ten and more continuation octets, as soon as that can be seen"""
+    if pos >= len(b):
+        return ('cut',)
+    mask = (1 << nbits) - 1
+    v = b[pos] & mask
+    pos += 1
+    if v < mask:
+        return ('ok', v, pos)
+    shift = 0
+    while True:
+        if shift >= 63:
+            return ('bad',)
+        if pos >= len(b):
+            return ('cut',)
+        c = b[pos]
+        pos += 1
+        v += (c & 0x7f) << shift
+        shift += 7
+        if not c & 0x80:
+            return ('ok', v, pos) if v < 1 << 62 else ('bad',)
+
+
+def r_str(b, pos, nbits):
+    """reference reading of a string literal: ('ok', value, next) | ('cut',) | ('bad',)"""
+    r = r_int(b, pos, nbits)
+    if r[0] != 'ok':
+        return r
+    _, n, q = r
+    if q + n > len(b):
+        return ('cut',)
+    payload = bytes(b[q:q + n])
+    if not (b[pos] >> nbits) & 1:
+        return ('ok', payload, q + n)
+    c15 = _c15()
+    syms, rest = c15.greedy_split(c15.bits_of(payload))
+    if len(rest) <= 7 and set(rest) <= {'1'}:
+        return ('ok', bytes(syms), q + n)
+    return ('bad',)
+
+
+def r_instrs(b, which):
+    """RFC 9204 4.3 / 4.4 reference split of a stream: ([(word, end offset)], offset where the reference stops
+    constraining: the start of the first instruction that is malformed or beyond what h3 supports (integer >= 2^62, Huffman
+    string that is not a valid RFC 7541 5.2 encoding, increment above 64), or None)"""
+    out, pos = [], 0
+    while pos < len(b):
+        f = b[pos]
+        word = None
+        if which == 'e':
+            if f & 0x80:
+                r = r_int(b, pos, 6)
+                if r[0] != 'ok':
+                    return out, (pos if r[0] == 'bad' else None)
+                v = r_str(b, r[2], 7)
+                if v[0] != 'ok':
+                    return out, (pos if v[0] == 'bad' else None)
+                word, nxt = '%s%d=%s' % ('IS' if f & 0x40 else 'ID', r[1], v[1].hex()), v[2]
+            elif f & 0x40:
+                n = r_str(b, pos, 5)
+                if n[0] != 'ok':
+                    return out, (pos if n[0] == 'bad' else None)
+                v = r_str(b, n[2], 7)
+                if v[0] != 'ok':
+                    return out, (pos if v[0] == 'bad' else None)
+                word, nxt = 'IL%s=%s' % (n[1].hex(), v[1].hex()), v[2]
+            else:
+                r = r_int(b, pos, 5)
+                if r[0] != 'ok':
+                    return out, (pos if r[0] == 'bad' else None)
+                word, nxt = '%s%d' % ('Z' if f & 0x20 else 'U', r[1]), r[2]
+        else:
+            r = r_int(b, pos, 7 if f & 0x80 else 6)
+            if r[0] != 'ok':
+                return out, (pos if r[0] == 'bad' else None)
+            if not f & 0xc0 and r[1] > 64:
+                return out, pos
+            word, nxt = '%s%d' % ('A' if f & 0x80 else 'X' if f & 0x40 else 'N', r[1]), r[2]
+        out.append((word, nxt))
+        pos = nxt
+    return out, None
+
+
+def qp_pieces(n, cuts):
+    """piece sizes as the drivers cut them"""
+    sizes, pos = [], 0
+    if cuts != '-':
+        for c in cuts.split('.'):
+            if c:
+                k = min(int(c), n - pos)
+                sizes.append(k)
+                pos += k
+    if pos < n or not sizes:
+        sizes.append(n - pos)
+    return sizes
+
+
+def qp_parts(case):
+    w = case.split()
+    which = w[0][-1]
+    stream = b'' if w[-2] == '-' else bytes.fromhex(w[-2])
+    return which, stream, qp_pieces(len(stream), w[-1])
+
+
+def qp_spec_ok(case, out):
+    """the split into instructions, piece by piece, against the reference: every instruction is reported by the call that
+    receives its last byte, not before, not twice, nothing is consumed beyond it; the real receive loop (R) consumes what
+    the instruction decoders (P) consumed"""
+    which, stream, sizes = qp_parts(case)
+    ref, stop = r_instrs(stream, which)
+    words = out.split()
+    if not words or words[0] == 'panic' or 'panic' in words:
+        return False
+    ws = [x for x in words[1:] if not x.startswith('S:')]
+    fed, consumed, k = 0, 0, 0
+    for j, x in enumerate(ws):
+        if j >= len(sizes):
+            return False
+        fed += sizes[j]
+        if stop is not None and fed > stop:
+            return True                         # the reference does not constrain the rest
+        p, _, r = x.partition('/')
+        pf = p.split(':')
+        exp = []
+        while k < len(ref) and ref[k][1] <= fed:
+            exp.append(ref[k])
+            k += 1
+        used = (exp[-1][1] - consumed) if exp else 0
+        if pf[:2] == ['P', 'err'] or len(pf) != 3:
+            return False                        # an error where the reference reads well-formed (or merely cut) instructions
+        if pf[1] != (';'.join(e[0] for e in exp) or '-') or int(pf[2]) != used:
+            return False
+        rf = r.split(':')
+        if rf[:2] == ['R', 'ok']:
+            if int(rf[3] if which == 'e' else rf[2]) != used:
+                return False
+        elif rf[:2] != ['R', 'err']:
+            return False
+        else:
+            return words[0] == 'err' and j == len(ws) - 1     # a table-level error ends the run
+        consumed += used
+    return len(ws) == len(sizes) and words[0] == 'ok'
+
+
+def qp_cuts(rng, n):
+    style = rng.random()
+    if n == 0 or style < 0.1:
+        return '-'
+    if style < 0.3:
+        return '.'.join(['1'] * n)                              # every prefix of the stream is seen by a call
+    if style < 0.4:
+        return '%d' % rng.randint(0, n)
+    out, left = [], n
+    while left > 0:
+        c = rng.choice([0, 1, 1, 1, 2, 2, 3, 4, 5, 7, 9, 12, 20, 40])
+        out.append(c)
+        left -= c
+    return '.'.join(map(str, out))
+
+
+def qp_mangle(rng, stream, firsts):
+    """malformed / truncated variants of a valid stream; `firsts` = first octets that start an over-long integer"""
+    m = rng.random()
+    b = bytearray(stream)
+    if m < 0.25 and len(b) > 1:
+        return bytes(b[:rng.randint(1, len(b) - 1)])                               # truncated
+    if m < 0.45:
+        bad = bytes([rng.choice(firsts)]) + bytes([0xff] * rng.choice([9, 10, 12])) + bytes([rng.choice([0, 1, 0x7f])])
+        return bytes(b) + bad + rb_(rng, rng.randint(0, 3))                         # integer with 10+ octets
+    if m < 0.6 and b:
+        i = rng.randrange(len(b))
+        b[i] ^= 1 << rng.randrange(8)
+        return bytes(b)                                                            # one flipped bit
+    if m < 0.75:
+        return bytes(b) + rb_(rng, rng.randint(1, 12))                             # garbage after valid instructions
+    if m < 0.85:
+        return rb_(rng, rng.randint(1, 24))                                        # garbage only
+    return bytes(b) + bytes([rng.choice([0x61, 0x62, 0x81]), 0x83][:2]) + bytes([0xfe, 0xfe, 0xfe])[:rng.randint(0, 3)]
+
+
+def rb_(rng, n):
+    return bytes(rng.getrandbits(8) for _ in range(n))
+
+
+def gen_qpe(rng, malformed=None):
+    cap = rng.choice([4096, 4096, 4096, 4096, 1024, 256, 100, 64, 0])
+    wild = rng.random() < 0.15              # indices / capacities the table will refuse
+    ins, live = [], 0
+    for _ in range(rng.randint(1, 9)):
+        k = rng.random()
+        v = rng.choice(VALUES[:10]) if rng.random() < 0.8 else rb_(rng, rng.randint(0, 40))
+        if k < 0.35 or (live == 0 and 0.55 <= k < 0.85):
+            ins.append(('IL', rng.choice(NAMES) if rng.random() < 0.8 else rb_(rng, rng.randint(0, 70)), v))
+            live += 1
+        elif k < 0.55:
+            ins.append(('IS', rng.choice([99, 200, 16383]) if wild and rng.random() < 0.3 else rng.choice([0, 1, 15, 17, 62, 63, 64, 70, 98]), v))
+            live += 1
+        elif k < 0.7:
+            ins.append(('ID', rng.choice([live, 63, 64, 1000]) if wild and rng.random() < 0.3 else rng.randint(0, live - 1), v))
+            live += 1
+        elif k < 0.85:
+            ins.append(('U', rng.choice([live, 31, 32, 5000]) if wild and rng.random() < 0.3 else rng.randint(0, live - 1)))
+            live += 1
+        else:
+            ins.append(('Z', rng.choice([0, 30, 31, 32, 100, 1 << 20, (1 << 30) - 1, 1 << 30, (1 << 62) - 1]) if wild else cap))
+    stream = b''.join(w_einstr(i, rng) for i in ins)
+    if malformed if malformed is not None else rng.random() < 0.35:
+        stream = qp_mangle(rng, stream, [0x1f, 0x3f, 0x5f, 0x7f, 0xbf, 0xff, 0x80 + 0x3f])
+    return 'qp.e %d %s %s' % (cap, stream.hex() or '-', qp_cuts(rng, len(stream)))
+
+
+def gen_qpd(rng, malformed=None):
+    cap = rng.choice([4096, 4096, 4096, 1024, 256, 64, 0])
+    blocked = rng.choice([100, 100, 10, 5, 2, 1, 0])
+    sid0 = rng.choice([0, 0, 100, 252, 16380, 1 << 20, (1 << 40) + 4])
+    wild = rng.random() < 0.2               # acknowledgements of unknown streams, increments the table refuses
+    eops, open_ = [], []
+    for j in range(rng.randint(0, 5)):
+        sid = sid0 + 4 * rng.randint(0, 2)
+        # a fresh name per section: an insertion, hence a tracked section that an acknowledgement can release
+        fs = [(b'x-%d' % j, rng.choice(VALUES[:6]))] + [(rng.choice(NAMES[:10]), rng.choice(VALUES[:6])) for _ in range(rng.randint(0, 2))]
+        eops.append('E%d:%s' % (sid, '.'.join(fstr(f) for f in fs)))
+        open_.append(sid)
+    ins, acked = [], 0
+    for _ in range(rng.randint(1, 8)):
+        k = rng.random()
+        if k < 0.4 and (open_ or wild):
+            if open_ and not (wild and rng.random() < 0.3):
+                ins.append(('A', open_.pop(0)))
+                acked += 1
+            else:
+                ins.append(('A', rng.choice([0, 4, 126, 127, 128, 1000, 1 << 30, (1 << 62) - 1])))
+        elif k < 0.6:
+            ins.append(('X', rng.choice(open_) if open_ and rng.random() < 0.7 else rng.choice([0, 62, 63, 64, 5000, (1 << 62) - 1])))
+        else:
+            ins.append(('N', rng.choice([0, 62, 63, 64, 65, 200, 1 << 20]) if wild else rng.choice([1, 1, 1, 2, 3])))
+    stream = b''.join(w_dinstr(i) for i in ins)
+    if malformed if malformed is not None else rng.random() < 0.3:
+        stream = qp_mangle(rng, stream, [0x3f, 0x7f, 0xff])
+    return 'qp.d %d %d %s %s %s' % (cap, blocked, ','.join(eops) or '-', stream.hex() or '-', qp_cuts(rng, len(stream)))
+
+
 def parse_case(case):
     w = case.split()
     ops = [o for o in w[3].split(',') if o]
@@ -308,15 +585,26 @@ class P(Property):
     partial_note = ('C20_agreement is proved for every history of encodes, deliveries, honest or bare decodes and feedback deliveries with a '
                     'fixed capacity and fewer than 2^62 insertions; with Stream Cancellation or set_dynamic_table_size in the history the '
                     'statement is refuted by the model and the real code (C20_cancel_blocked_refuted, C20_capacity_with_resize_refuted); '
-                    'instructions and representations are structured values in the theorems - their byte codecs are compared on the wire '
-                    'in the correspondence run (model bytes from the C15 prefix-int/string models) but no parser theorem is pinned here')
+                    'instructions and representations are structured values in the agreement theorems; for the two instruction streams the '
+                    'byte level is proved too (C20_parser_...: the parser model Model/QParse.v is self-delimiting on all inputs, inverts the '
+                    'encoders of Model/QWire.v with exact consumption, answers Incomplete on every strict prefix, and parses any chunking of a '
+                    'stream to exactly the instruction list, for integers in the prefix-int codec range, octet strings below 2^26 and '
+                    'increments <= 64; InsertCountIncrement above 64 is written by the decoder and refused by the encoder: '
+                    'C20_parser_increment_above_64_refuted); field-section bytes (block.rs) are compared on the wire in the correspondence '
+                    'run only (their parsers are C11)')
     trusted_extra = ['verification hooks in /repo: qpack/verif/tables.rs (wrappers) and cfg(h3_verif) From<DynamicTable>/verif_table/'
                      'verif_snapshot items in encoder.rs, decoder.rs, dynamic.rs',
                      'HashMap/BTreeMap modelled as association lists; block_refs iteration order only matters on the (proved unreachable) '
                      'InvalidTrackingCount path',
                      'usize = 64 bit; overflow of insert counters (2^62 insertions) excluded by premise',
                      'static table rows are the generated ones (agreement with RFC 9204 App. A is C11)',
-                     'prefix-int / Huffman string models of C15 (Model/PrefixInt.v, PrefixString.v, Huffman.v) for the wire comparison only']
+                     'prefix-int / Huffman string models of C15 (Model/PrefixInt.v, PrefixString.v, Huffman.v), on which the parser theorems rest',
+                     'Model/QParse.v (instruction parsers and receive loops) is tied to stream.rs / parse_instruction / Action::parse by the qp.e / qp.d '
+                     'families: the per-instruction decoders are reached through the wrappers parse_encoder_stream / parse_decoder_stream of '
+                     'qpack/verif/tables.rs (which copy the first-octet dispatch and the loop), the real loops through on_encoder_recv / '
+                     'on_decoder_recv on one contiguous buffer (both callers parse Cursor::new(read.chunk()), i.e. the first chunk only)',
+                     'lib/props/c20.py reference splitter of RFC 9204 4.3 / 4.4 instruction streams (RFC 7541 5.1 integers, spec-data Huffman table) '
+                     'used as the oracle of the qp families']
     rule = ('qs: seeded histories of 1..40 field sections over alphabets of 1..4 names x 1..4 values drawn from 26 names / 18 values '
             '(static-table names incl. indices >= 63, full static matches, case / prefix / suffix / high-byte near-misses of static rows, '
             'names of 64 and values of 200 bytes), the big family (up to ~120 table entries, 125..270 insertions, bursts of 13..64 '
@@ -329,7 +617,16 @@ class P(Property):
             'decides ok/blocked independently and decoded lists are compared with the original lists.  qc: the same with Stream '
             'Cancellation (a decoded list must still be the original list; an error instead of blocked is the known finding).  qz: the same with '
             'set_dynamic_table_size in the history (impl = model only).  hp.new / hp.get: prefix arithmetic on grids and random '
-            'values.  non-trivial = a history in which a section with a dynamic reference was decoded or reported blocked')
+            'values.  qp.e / qp.d: raw encoder- / decoder-stream bytes handed to the receiver in pieces (tail of the previous call + next '
+            'piece): 1..9 instructions of every kind (capacities, static / dynamic / duplicate indices and stream ids with 0..9 continuation '
+            'octets, Huffman and raw string literals up to 200 octets, increments 0..2^20), cut at random places, at every octet, or not at '
+            'all; a third of the streams truncated, bit-flipped, followed by garbage, by an integer of 10+ octets or by a Huffman string with '
+            'bad padding; decoder tables of capacity 0..4096, encoders with 0..5 tracked sections.  Per piece the instructions and byte count '
+            'returned by the crate decoders, the result / bytes consumed / bytes written / table state of the real on_encoder_recv / '
+            'on_decoder_recv are compared with parse_all + the table model, and with the python reference splitter (every instruction is '
+            'delivered by the call that receives its last octet, nothing is consumed beyond it).  '
+            'non-trivial = a history in which a section with a dynamic reference was decoded or reported blocked, or a qp case in which an '
+            'instruction was parsed and more than one piece was handed over')
 
     def cases(self, tier, rng):
         out = []
@@ -348,6 +645,14 @@ class P(Property):
             out.append(gen_history(rng, resize=True))
         for _ in range(n // 5):
             out.append(gen_history(rng, cancel=True, style='late'))
+        # the instruction parsers on raw bytes: valid streams with random cuts, truncated and malformed streams
+        for _ in range(n):
+            out.append(gen_qpe(rng))
+        for _ in range(n // 2):
+            out.append(gen_qpd(rng))
+        for _ in range(n // 10):
+            out.append(gen_qpe(rng, malformed=True))
+            out.append(gen_qpd(rng, malformed=True))
         # prefix arithmetic
         for m in [0, 1, 31, 32, 63, 64, 100, 128, 4096]:
             for t in range(0, 12):
@@ -371,6 +676,8 @@ class P(Property):
         return case.split()[0]
 
     def canon(self, case, out):
+        if case.startswith('qp.'):
+            return out
         if case.startswith('hp.'):
             return 'panic' if out.startswith('panic') else out
         words = out.split()
@@ -385,6 +692,8 @@ class P(Property):
 
     def spec_ok(self, case, out, spec):
         fam = case.split()[0]
+        if fam in ('qp.e', 'qp.d'):
+            return qp_spec_ok(case, out)
         if fam == 'hp.get' and spec and spec.startswith('rfc-required') and out.startswith('ok'):
             return out.split()[1] == spec.split()[1]     # where the RFC reconstructs a value, h3 must reconstruct the same
         if fam in ('hp.new', 'hp.get'):
@@ -452,8 +761,27 @@ class P(Property):
         h = collections.Counter()
         sizes = collections.Counter()
         caps = collections.Counter()
+        qp = collections.Counter()
         for (c, i, m, s) in ctx['rows']:
-            if not c.startswith('q'):
+            if not c.startswith('qp.'):
+                continue
+            which, stream, psizes = qp_parts(c)
+            ref, stop = r_instrs(stream, which)
+            ends = {e for _, e in ref}
+            fed = 0
+            for k0 in psizes[:-1]:
+                fed += k0
+                if 0 < fed < len(stream) and fed not in ends and (stop is None or fed < stop):
+                    qp['pieces_ending_inside_an_instruction_' + which] += 1
+            qp['streams_' + which] += 1
+            qp['malformed_or_unsupported_streams_' + which] += stop is not None
+            qp['streams_ending_inside_an_instruction_' + which] += stop is None and (ref[-1][1] if ref else 0) < len(stream)
+            qp['instructions_parsed_' + which] += len(ref)
+            qp['runs_ending_in_a_table_error_' + which] += i.startswith('err') and stop is None
+        for k0, v0 in qp.items():
+            h['qp_' + k0] = v0
+        for (c, i, m, s) in ctx['rows']:
+            if not c.startswith('q') or c.startswith('qp.'):
                 continue
             w = c.split()
             ops = w[3].split(',')
@@ -553,6 +881,11 @@ class P(Property):
             viol.append(('coverage', {'message': 'no byte-granular delivery ended inside a multi-byte integer of an encoder-stream instruction'}))
         if ctx['rows'] and max_inc < 63:
             viol.append(('coverage', {'message': 'no on_encoder_recv call delivered 63 or 64 insertions'}))
+        for which in 'ed':
+            if ctx['rows'] and not qp.get('pieces_ending_inside_an_instruction_' + which):
+                viol.append(('coverage', {'message': 'no qp.%s case hands over a piece that ends inside an instruction' % which}))
+            if ctx['rows'] and not qp.get('malformed_or_unsupported_streams_' + which):
+                viol.append(('coverage', {'message': 'no qp.%s case carries a malformed instruction' % which}))
         for k0 in ('U', 'ID', 'IS', 'D', 'LD'):
             if ctx['rows'] and not big_idx.get(k0):
                 viol.append(('coverage', {'message': 'no %s index with a continuation byte was generated' % k0}))
@@ -565,6 +898,11 @@ class P(Property):
         return viol if len(ctx['rows']) > 100 else []
 
     def nontrivial_key(self, case, impl_out):
+        if case.startswith('qp.'):
+            # at least one instruction parsed and at least one call that had to keep an incomplete tail
+            ws = impl_out.split()[1:]
+            parsed = any(x.startswith('P:') and not x.startswith('P:-') and not x.startswith('P:err') for x in ws)
+            return case if parsed and len(ws) > 1 else None
         if case.startswith('hp.'):
             return case if impl_out.startswith('ok') and not impl_out.startswith('ok 0 0') else None
         if re.search(r'B:ok:[^ :]*:1:', impl_out) or 'B:blocked' in impl_out:
@@ -573,6 +911,19 @@ class P(Property):
 
     def shrink_candidates(self, case):
         w = case.split()
+        if w[0] in ('qp.e', 'qp.d'):
+            out, hx_, cuts = [], w[-2], w[-1]
+            if cuts != '-':
+                out.append(w[:-1] + ['-'])
+                cs = cuts.split('.')
+                out += [w[:-1] + ['.'.join(cs[:k] + cs[k + 1:]) or '-'] for k in range(len(cs))][:30]
+            if hx_ != '-':
+                out.append(w[:-2] + [hx_[:-2] or '-', cuts])
+                out.append(w[:-2] + [hx_[2:] or '-', cuts])
+            if w[0] == 'qp.d' and w[3] != '-':
+                es = w[3].split(',')
+                out += [w[:3] + [','.join(es[:k] + es[k + 1:]) or '-'] + w[4:] for k in range(len(es))]
+            return [' '.join(c) for c in out]
         if w[0] not in ('qs', 'qz', 'qc'):
             return []
         ops = w[3].split(',')
